@@ -122,11 +122,12 @@ fn bound(func: &str) -> (f64, f64) {
     match (BACKEND, func) {
         ("std", _) | ("libm", _) => (ulp4, 1e-37),
         ("mm", "sin") | ("mm", "cos") => (0.0, 2e-3),
-        ("mm", "tan") => (1e-2, 2e-3),
+        ("mm", "tan") => (2e-2, 2e-3),
         ("mm", "sqrt") => (3e-3, 1e-30),
         ("mm", "recip_sqrt") => (3e-3, 0.0),
         ("mm", "asin") | ("mm", "acos") => (0.0, 4e-2),
-        ("mm", "atan2") => (0.0, 5e-3),
+        // ("a few 1e-2 for the inverse trigonometric functions")
+        ("mm", "atan2") => (0.0, 2e-2),
         ("mm", "powf") => (3e-2, 3e-2),
         ("none", "recip_sqrt") => (4e-3, 0.0),
         _ => (0.0, 0.0),
@@ -134,7 +135,14 @@ fn bound(func: &str) -> (f64, f64) {
 }
 
 fn judge_approx(rep: &mut Report, func: &str, args: &[f32], got: f32, exp: f64) {
-    let (rel, abs) = bound(func);
+    let (rel, mut abs) = bound(func);
+    // exact-class backends: "a few ulp" of the result, or — for the bounded
+    // periodic functions, whose zeros make a purely relative bound one on the
+    // argument's rounding — of 1 + |argument| (the argument is only known to
+    // half an ulp of itself)
+    if matches!(BACKEND, "std" | "libm") && matches!(func, "sin" | "cos") {
+        abs = abs.max(4.0 * 1.1920929e-7 * (1.0 + args[0].abs() as f64 * 0.5));
+    }
     let err = (got as f64 - exp).abs();
     let ok = err <= abs || err <= rel * exp.abs();
     let ratio = if err == 0.0 { 0.0 } else { (err / abs.max(1e-300)).min(err / (rel * exp.abs()).max(1e-300)) };
@@ -420,7 +428,9 @@ fn run(cfg: &Cfg, rep: &mut Report) {
         let exact_ok = BACKEND == "mm" || {
             let want = (x as f64).rem_euclid(m as f64);
             let d = (r as f64 - want).abs();
-            let t = 2.0 * 1.1920929e-7 * m as f64;
+            // (… or of x: a remainder formed through the quotient is congruent
+            // to within the input's own rounding, which is all the statement asks)
+            let t = 2.0 * 1.1920929e-7 * (m as f64).max((x as f64).abs());
             d <= t || (d - m as f64).abs() <= t
         };
         if !(r >= 0.0 && r <= m) || !(resid <= tol) || !exact_ok {
